@@ -852,6 +852,66 @@ pub fn generate(name: &str, count: usize, rng: &mut Rng, sink: &mut dyn FnMut(Se
                 sink(Session { sid: format!("v1adj-{}", i), tag: json!({"g": "v1adj", "b": b, "k": k, "place": place}), chunks, huge: None, consume: false });
             }
         }
+        // lenient-parser forms: a VALID line in which one address or port is decorated the way
+        // permissive parsers tolerate (brackets, zone, prefix length, port suffix, sign, padding,
+        // white space, quotes, other radices, other digit sets). All of them, every time; tagged as
+        // single-element corruptions so that the specification decides which of them qualify for
+        // C12 (C01 speaks about every one of them)
+        "v1lenient" => {
+            let addr_decor: [(&str, &str); 18] = [("[", "]"), ("", "%eth0"), ("", "%1"), ("", "/32"), ("", ":80"), ("+", ""), ("0", ""),
+                ("", "."), ("<", ">"), ("\"", "\""), ("(", ")"), (" ", ""), ("", "\t"), ("\t", ""), ("", "\0"), ("", "\n"), ("[", ""), ("", "]")];
+            let port_decor: [(&str, &str); 12] = [("+", ""), ("0", ""), ("", " "), ("", "\t"), ("0x", ""), ("", "."), ("", ","), ("\t", ""),
+                ("", "\0"), ("-", ""), ("", "e0"), ("", "_")];
+            let fixed4: [&str; 8] = ["0x7f.0.0.1", "0177.0.0.1", "127.1", "2130706433", "1.2.3.4.", "\u{661}.2.3.4", "1.2.3.\u{ff14}", "::ffff:1.2.3.4"];
+            let fixed_port: [&str; 4] = ["\u{ff18}\u{ff10}", "\u{661}\u{662}", "8 0", "0x50"];
+            let mut i = 0;
+            let mut emit = |toks: &[Vec<u8>], idx: usize, elem: &str, repl: Vec<u8>, sink: &mut dyn FnMut(Session)| {
+                let base: Vec<u8> = toks.concat();
+                let mut t2 = toks.to_vec();
+                t2[idx] = repl.clone();
+                let mut bytes = t2.concat();
+                if i % 3 == 0 {
+                    bytes.extend_from_slice(b"GET / HTTP/1.1\r\n");
+                }
+                let tag = json!({"g": "c12v1", "base": flat(&base), "elem": elem, "repl": flat(&repl)});
+                sink(Session { sid: format!("v1lenient-{}", i), tag, chunks: vec![bytes], huge: None, consume: false });
+                i += 1;
+            };
+            for round in 0..count.max(1) {
+                let _ = round;
+                let t = |x: &str| x.as_bytes().to_vec();
+                let l4: Vec<Vec<u8>> = vec![t("PROXY"), t(" "), t("TCP4"), t(" "), t("192.0.2.1"), t(" "), t("198.51.100.7"), t(" "), t("5555"), t(" "), t("443"), t("\r"), t("\n")];
+                let l6: Vec<Vec<u8>> = vec![t("PROXY"), t(" "), t("TCP6"), t(" "), t("2001:db8::1"), t(" "), t("::1"), t(" "), t("80"), t(" "), t("65535"), t("\r"), t("\n")];
+                for line in [&l4, &l6] {
+                    for (idx, elem) in [(4usize, "src"), (6usize, "dst")] {
+                        for (pre, post) in addr_decor.iter() {
+                            let mut r = pre.as_bytes().to_vec();
+                            r.extend_from_slice(&line[idx]);
+                            r.extend_from_slice(post.as_bytes());
+                            emit(line, idx, elem, r, &mut *sink);
+                        }
+                    }
+                    for (idx, elem) in [(8usize, "sport"), (10usize, "dport")] {
+                        for (pre, post) in port_decor.iter() {
+                            let mut r = pre.as_bytes().to_vec();
+                            r.extend_from_slice(&line[idx]);
+                            r.extend_from_slice(post.as_bytes());
+                            emit(line, idx, elem, r, &mut *sink);
+                        }
+                        for f in fixed_port.iter() {
+                            emit(line, idx, elem, f.as_bytes().to_vec(), &mut *sink);
+                        }
+                    }
+                }
+                for f in fixed4.iter() {
+                    emit(&l4, 4, "src", f.as_bytes().to_vec(), &mut *sink);
+                    emit(&l4, 6, "dst", f.as_bytes().to_vec(), &mut *sink);
+                }
+                // the other family's valid address in an otherwise valid line
+                emit(&l4, 4, "src", b"2001:db8::1".to_vec(), &mut *sink);
+                emit(&l6, 6, "dst", b"192.0.2.1".to_vec(), &mut *sink);
+            }
+        }
         // arbitrary bytes over small alphabets, incl. multi-byte characters next to CR
         "v1junk" => {
             let pieces: [&[u8]; 14] = [b"P", b"PROXY", b" ", b"\r", b"\n", "\u{e9}".as_bytes(), "\u{20ac}".as_bytes(), "\u{1F600}".as_bytes(), b"UNKNOWN", b"TCP4", b"1", b"\xff", b"\x00", b"::"];
